@@ -573,6 +573,9 @@ TRUE = V(BOOL, z3.BoolVal(True))
 FALSE = V(BOOL, z3.BoolVal(False))
 
 
+ALWAYS_TRUTHY = set()      # opaque sorts declared by a spec as plain objects (no __bool__/__len__): always true
+
+
 def truthy(v):
     """Python truthiness of a value as a Bool V."""
     s = v.s
@@ -592,6 +595,8 @@ def truthy(v):
         return V(BOOL, z3.And(z3.Not(s.is_none(v)), truthy(s.val(v)).t))
     if isinstance(s, Tup):
         return V(BOOL, z3.BoolVal(len(s.elems) > 0))
+    if isinstance(s, Opaque) and s.oname in ALWAYS_TRUTHY:
+        return TRUE
     if isinstance(s, Opaque):
         # an opaque value may be falsy (0, '', None, an empty container): uninterpreted truth value
         f = z3.Function("Truthy_" + s.oname, s.z3(), z3.BoolSort())
